@@ -3,6 +3,7 @@
    Configurations: banded_solver in {1,2,3,4} x pentapy importable or not x numba importable or not.
    `valid c` = the banded_solver setter accepts cf_bs c (the values are read from the source). *)
 From Coq Require Import ZArith List Bool Lia.
+From Coq Require PrimFloat.
 From PB Require Import lib.SumZ lib.PySlice lib.Arr C11.DtD C11.Table gen.GenBands C11.Banded C11.History
                        C10.Syntax gen.GenC10 C10.Model C10.Proofs.
 Import ListNotations.
@@ -139,6 +140,15 @@ Theorem C10_kernel_fallback_pairs :
   flag_branches = expected_flag_branches /\ (forall k, In k jit_functions -> kernel_has_pair k = true).
 Proof. exact branches_ok. Qed.
 Print Assumptions C10_kernel_fallback_pairs.
+
+(* IEEE: a zero weight does not remove a non-finite datum from a sum (what the pair identities of coq/C10/Sites.v mean
+   when read over floats); evaluated on Coq's primitive binary64 floats *)
+Example C10_zero_weight_propagates_nonvacuous :
+  PrimFloat.is_nan (PrimFloat.mul PrimFloat.zero PrimFloat.nan) = true /\
+  PrimFloat.is_nan (PrimFloat.mul PrimFloat.zero PrimFloat.infinity) = true /\
+  PrimFloat.is_nan (PrimFloat.add (PrimFloat.mul PrimFloat.zero PrimFloat.neg_infinity) PrimFloat.one) = true /\
+  length pair_identities = 5%nat.
+Proof. vm_compute. repeat split. Qed.
 
 (* imported here, after the theorems above, because C07.Model re-uses names of C10.Model (call, den, ...) *)
 From PB Require Import C07.Model C07.Proofs C10.Btb C10.BeadsModel C10.BeadsProofs.
